@@ -688,8 +688,8 @@ func J(v interface{}) string {
 }
 
 // Ladder returns the size ladder lo..hi, ascending: every power of two in the range with its two
-// neighbours (2^k-1, 2^k, 2^k+1), every power of ten with its two neighbours, and the halfway marks
-// 3*2^k and 5*10^j.  Small scopes cannot reach the constants code is tuned around (block sizes, fast-path
+// neighbours (2^k-1, 2^k, 2^k+1), every power of ten with its two neighbours, the halfway marks
+// 3*2^k and 5*10^j, and every size up to 48.  Small scopes cannot reach the constants code is tuned around (block sizes, fast-path
 // thresholds, pool size classes); those are powers of two almost without exception and round decimal
 // numbers otherwise, so the ladder is the boundary family for sizes in general.
 func Ladder(lo, hi int) []int {
@@ -702,6 +702,9 @@ func Ladder(lo, hi int) []int {
 				out = append(out, n)
 			}
 		}
+	}
+	for n := 1; n <= 48; n++ {
+		add(n) // dense at the bottom: cut-offs for "small" inputs (12, 20, 24, 40) are not round numbers
 	}
 	for p := 1; p-1 <= hi; p *= 2 {
 		add(p-1, p, p+1, 3*p)
